@@ -635,13 +635,13 @@ def rescale_witness(eq, rng: random.Random, tries: int = 3, stats: dict | None =
         used = [b for b in range(7) if any(atoms[s][1] != ANY and atoms[s][1][b] != 0 for s in syms)]
 
         def evaluate(side, b, lam):
-            # exact rationals (and exact algebraic scale factors such as 2**(1/2)), evaluated to 30 digits
+            # 40-digit floats throughout (a double-precision 2**(1/2) would be amplified by large exp() arguments)
             sub = {}
             for s in syms:
                 _, d, v = atoms[s]
-                val = sympy.Rational(v)
+                val = sympy.Float(v, 40)
                 if d != ANY and d[b] != 0:
-                    val = val * sympy.Integer(lam)**sympy.Rational(d[b].numerator, d[b].denominator)
+                    val = val * sympy.Float(lam, 40)**(sympy.Float(d[b].numerator, 40) / d[b].denominator)
                 sub[s] = val
             try:
                 return complex(sympy.N(side.subs(sub), 30))
